@@ -19,6 +19,7 @@ var readerPool = sync.Pool{
 
 func newReader(r io.Reader) *bufio.Reader {
 	br := readerPool.Get().(*bufio.Reader)
+	verifReaderGet(br.Buffered())
 	br.Reset(r)
 	return br
 }
